@@ -341,11 +341,11 @@ def rule_datetimes(ck, rid="C18.datetimes"):
 def run(ck):
     # names are attached in network order: constraint_current must return its rows in network order too (shared with C12)
     from .c12 import rule_subset
-    rule_subset(ck)
-    rule_current_power(ck)
-    rule_constraint_currents(ck)
-    rule_energy_totals(ck)
-    rule_proportions(ck)
-    rule_demand_cost(ck)
-    rule_nema(ck)
-    rule_datetimes(ck)
+    ck.attempt(rule_subset)
+    ck.attempt(rule_current_power)
+    ck.attempt(rule_constraint_currents)
+    ck.attempt(rule_energy_totals)
+    ck.attempt(rule_proportions)
+    ck.attempt(rule_demand_cost)
+    ck.attempt(rule_nema)
+    ck.attempt(rule_datetimes)
